@@ -116,6 +116,17 @@ def run(ctx):
                         if fro(X - pinv(An)) > 1e-2: viol('C13:rsp:pinv', 'converged RSP result is far from the pseudoinverse', inp, fro(X - pinv(An)))
                     if info['iterations'] != len(info['residual_norms']): viol('C13:rsp:info', 'iterations != len(residual_norms)', inp)
                     ctx.count(('rsp', m, n, seed, cs, bs), True)
+        # monitoring sketch of the same width as the iteration block (and narrower than n): the test sketch must stay independent of the iterates
+        for seed in seeds:
+            for cs in ('qr', 'spd'):
+                for bs in range(1, n):
+                    for tss in sorted({bs, max(1, bs - 1)}):
+                        inp = {'solver': 'RSP column', 'shape': [m, n], 'seed': seed, 'block_size': bs, 'column_solver': cs, 'test_sketch_size': tss}
+                        try: X, info = solver.RandomizedSketchProjectPseudoinverse(block_size=bs, max_iter=400, tol=1e-6, seed=seed, column_solver=cs, test_sketch_size=tss).compute_column_variant(An)
+                        except Exception as e: viol('C13:rsp:raises', f'RSP raised {e!r}', inp); continue
+                        tr = true_res(X, An, n)
+                        if info['converged'] and not tr <= 1e3 * 1e-6: viol('C13:rsp:flag:narrow-test-sketch', f'RSP reports converged after {info["iterations"]} iteration(s) with true residual {tr:.3e} (tol 1e-6)', inp, tr, 1e-6)
+                        ctx.count(('rsp-narrow', m, n, seed, cs, bs, tss), True)
         # hybrid
         for seed in seeds:
             for p in ((2, 3) if ctx.quick() else (2, 3, 5, 8)):
